@@ -129,7 +129,7 @@ fn second_boundary_warm_up() {
     while subsec_ms() < 850 {
         std::thread::sleep(std::time::Duration::from_millis(5));
     }
-    let cfg = EntityCfg { len: 10, etag: None, mtime_ns: Some(784111777u128 * 1_000_000_000), hdrs: vec![], recipes: vec![], default_recipe: vec![Op::Rest], split: false, mtime_before_epoch: false };
+    let cfg = EntityCfg { len: 10, etag: None, mtime_ns: Some(784111777u128 * 1_000_000_000), hdrs: vec![], recipes: vec![], default_recipe: vec![Op::Rest], split: false, mtime_before_epoch: false, volatile_hdrs: false };
     let ent = ScriptedEntity { cfg, log: Arc::new(Mutex::new(Log::default())) };
     let req = http::Request::builder().method("GET").body(()).unwrap();
     let _ = catch_unwind(AssertUnwindSafe(|| http_serve::serve(ent, &req)));
@@ -148,6 +148,8 @@ pub fn run(case: &ServeCase) -> Outcome {
     // hint 8: the entity hands its chunks over as two non-contiguous pieces
     let mut cfg = case.ent.clone();
     cfg.split = cfg.split || has_hint(case, 8);
+    // hint 11: the entity's add_headers answers differently every time it is asked
+    cfg.volatile_hdrs = has_hint(case, 11);
     let ent = ScriptedEntity { cfg, log: log.clone() };
     let mut rb = http::Request::builder().method(http::Method::from_bytes(&case.method).expect("valid method token"));
     for (k, v) in &case.headers {
@@ -171,6 +173,8 @@ pub fn run(case: &ServeCase) -> Outcome {
         .iter()
         .map(|(k, v)| Val::L(vec![Val::bytes(k.as_str().as_bytes()), Val::bytes(v.as_bytes())]))
         .collect();
+    // (that was the harness asking; the response's own first question gets the same answer)
+    log.lock().unwrap().hdr_calls = 0;
 
     let t0 = secs_of(SystemTime::now());
     let res = catch_unwind(AssertUnwindSafe(|| http_serve::serve(ent, &req)));
@@ -358,6 +362,7 @@ pub fn case_of_input(v: &Val) -> Option<ServeCase> {
             default_recipe: vec![],
             split: false,
             mtime_before_epoch: false,
+            volatile_hdrs: false,
         },
         method: r[0].as_b()?.clone(),
         headers,
@@ -388,7 +393,7 @@ pub fn pre_epoch_checks() -> Vec<String> {
             ] {
                 let cfg = EntityCfg {
                     len: 100, etag: Some(b"\"abc\"".to_vec()), mtime_ns: Some(secs as u128 * 1_000_000_000 + sub as u128),
-                    hdrs: vec![], recipes: vec![], default_recipe: vec![Op::Rest], split: false, mtime_before_epoch: true,
+                    hdrs: vec![], recipes: vec![], default_recipe: vec![Op::Rest], split: false, mtime_before_epoch: true, volatile_hdrs: false,
                 };
                 let ent = ScriptedEntity { cfg, log: Arc::new(Mutex::new(Log::default())) };
                 let mut rb = http::Request::builder().method(method);
